@@ -7,11 +7,13 @@ MODULE = "Phil.Props.C07"
 LEVEL_TEXT = ("Lean theorems about the merge model: for masters without a .multiple object nested in a .multiple scope, fetching "
               "a fetch result again, or with the master itself as an extra first source, reproduces the result (partial: the "
               "hypothesis and the canonical-rendering law are named in the theorem statements); a kernel-checked witness shows "
-              "the duplication for nested multiples with a non-canonical default (finding D8). The model is tied to /repo by a "
+              "that the former duplication for nested multiples with a non-canonical default (D8, repaired with D9) is gone: the "
+              "second fetch of that input has the same node listing as the first (refetch_fixed_point_nested). The model is tied to /repo by a "
               "correspondence run on fetch chains; the oracle evaluates every equality of the statement on the implementation "
               "(re-fetch as object, re-fetch from printed text, master as extra source, no source vs master as source; 1-3 cycles).")
-LEVEL_NOTE = "partial on the unchanged tree: D8 (nested multiples / non-canonical defaults inside multiple scopes) is a known finding."
-TECHNIQUE = "Lean 4 idempotence theorem (partial) + negation witness + differential correspondence + equality oracle on fetch chains"
+LEVEL_NOTE = ("closed-form idempotence is proved for flat masters (C05Multi.refetch_idempotent); for nested masters the statement "
+              "rests on the stated hypotheses plus the correspondence. D8 (nested multiples) is fixed in /repo (bcaa855).")
+TECHNIQUE = "Lean 4 idempotence theorems (closed form on flat masters, conditional on nested ones) + differential correspondence + equality oracle on fetch chains"
 RULE = ("masters (incl. multiples nested in multiple scopes, non-canonical defaults such as 'yes' for a bool or unquoted strings) x "
         "source lists x 1-3 fetch/print/parse cycles; non-trivial = the result differs from the bare master fetch")
 ASSUMPTIONS = ["equality = identical print at attributes_level=2 and equal extract() dumps"]
